@@ -165,6 +165,9 @@ func (jr *jpegReader) nextMarker() bool {
 			jr.marker = markerType(jr.buf[1])
 			return true
 		}
+		// Marker byte outside of an image (before the first SOI or after the
+		// last EOI). Move forward by one byte.
+		jr.err = jr.discard(1)
 	}
 	return false
 }
